@@ -245,6 +245,8 @@ func runC11(c *Ctx) {
 
 	// ---- R5 ----
 	c.c11Causes(parse)
+	c.rejectionGuardsLive("R5", "CER")
+	c.acceptSkeleton("R5", "CER", false)
 }
 
 type ansCode struct {
@@ -549,4 +551,230 @@ func relDesc(rl rel) string {
 		return short(v.String(), 30)
 	}
 	return d(rl.a) + " " + rl.op.String() + " " + d(rl.b)
+}
+
+// rejectionGuardsLive: contradiction rule on the capabilities parsers. Every return of an Err* cause that is
+// guarded by a nil test on the result of a module function needs that function to be able to produce the
+// tested outcome; a test "f() == nil" where every return of f is a fresh allocation states a belief the
+// callee contradicts, and the rejection it guards can never happen.
+func (c *Ctx) rejectionGuardsLive(rule, typ string) {
+	r := c.R
+	root := c.P.Method("diam/sm/smparser", typ, "Parse")
+	if root == nil {
+		r.Undecided(rule, "role:"+typ+".Parse", "-", "cannot resolve smparser."+typ+".Parse")
+		return
+	}
+	// functions of package smparser statically reachable from the parser
+	seen := map[*ssa.Function]bool{root: true}
+	work := []*ssa.Function{root}
+	for len(work) > 0 {
+		f := work[0]
+		work = work[1:]
+		for _, ci := range flow.CallInstrs(f) {
+			g := flow.StaticCallee(ci)
+			if g != nil && g.Blocks != nil && !seen[g] && pkgOf(g) != nil && pkgOf(g).Path() == pkgSMParser {
+				seen[g] = true
+				work = append(work, g)
+			}
+		}
+	}
+	var fns []*ssa.Function
+	for f := range seen {
+		fns = append(fns, f)
+	}
+	sort.Slice(fns, func(i, j int) bool { return fname(fns[i]) < fname(fns[j]) })
+	n := 0
+	for _, f := range fns {
+		done := map[*ssa.If]bool{}
+		flow.Instrs(f, func(in ssa.Instruction) {
+			ret, ok := in.(*ssa.Return)
+			if !ok || len(ret.Results) == 0 {
+				return
+			}
+			gl := loadedGlobal(ret.Results[len(ret.Results)-1])
+			if gl == nil || !strings.HasPrefix(gl.Name(), "Err") {
+				return
+			}
+			for _, gd := range flow.Guards(ret) {
+				if done[gd.If] {
+					continue
+				}
+				rl, ok := condRel(gd.If.Cond, gd.Taken)
+				if !ok || !flow.IsNilConst(rl.b) || (rl.op != token.EQL && rl.op != token.NEQ) {
+					continue
+				}
+				call, isCall := flow.Peel(rl.a).(*ssa.Call)
+				if !isCall {
+					continue
+				}
+				g := flow.StaticCallee(call)
+				if g == nil || g.Blocks == nil || !c.P.InModule(pkgOf(g)) {
+					continue
+				}
+				done[gd.If] = true
+				n++
+				key := fname(f) + ":guard-live:" + g.Name() + "-" + gl.Name()
+				never, always := true, true
+				for _, rv := range flow.ReturnValues(g, 0) {
+					if !freshNonNil(rv, 0) {
+						never = false
+					}
+					if !flow.IsNilConst(rv) {
+						always = false
+					}
+				}
+				dead := (rl.op == token.EQL && never) || (rl.op == token.NEQ && always)
+				r.Check(!dead, rule, key, c.pos(gd.If), "the tested outcome of "+fname(g)+" is producible: the rejection with "+gl.Name()+" can happen",
+					"the rejection with "+gl.Name()+" is guarded by a nil test on "+fname(g)+"(), which can never produce that outcome (every return is a fresh allocation / always nil): a capabilities message that must be refused is accepted")
+			}
+		})
+	}
+	if n == 0 {
+		r.Trivial(rule, "smparser."+typ+".Parse:guard-live", c.fpos(root), "no rejection is guarded by a nil test on a module function's result")
+	}
+}
+
+// freshNonNil: v is a value that can never be nil (allocation, composite, conversion of one).
+func freshNonNil(v ssa.Value, d int) bool {
+	if d > 4 {
+		return false
+	}
+	switch x := v.(type) {
+	case *ssa.MakeSlice, *ssa.Alloc, *ssa.MakeMap, *ssa.MakeChan, *ssa.MakeClosure, *ssa.MakeInterface:
+		return true
+	case *ssa.Slice:
+		return freshNonNil(x.X, d+1)
+	case *ssa.ChangeType:
+		return freshNonNil(x.X, d+1)
+	case *ssa.Phi:
+		for _, e := range x.Edges {
+			if !freshNonNil(e, d+1) {
+				return false
+			}
+		}
+		return true
+	}
+	return false
+}
+
+// acceptSkeleton: the control skeleton of the acceptance predicate in smparser.<typ>.Parse. A return that can
+// carry a nil error (the message is accepted) must (a) lie behind every error-returning step of Parse — each
+// is executed on every path to it and no path leads from a step's error edge to it — and (b), for the CEA,
+// be guarded by Result-Code == 2001. It decides that no validation step is skipped or its verdict dropped,
+// not what the steps compute.
+func (c *Ctx) acceptSkeleton(rule, typ string, wantSuccessCode bool) {
+	r := c.R
+	f := c.P.Method("diam/sm/smparser", typ, "Parse")
+	if f == nil {
+		r.Undecided(rule, "role:"+typ+".Parse", "-", "cannot resolve smparser."+typ+".Parse")
+		return
+	}
+	// error-returning steps
+	var steps []*ssa.Call
+	for _, ci := range flow.CallInstrs(f) {
+		call, ok := ci.(*ssa.Call)
+		if !ok || errorResult(call) == nil {
+			continue
+		}
+		g := flow.StaticCallee(call)
+		if g == nil || !c.P.InModule(pkgOf(g)) {
+			continue
+		}
+		steps = append(steps, call)
+	}
+	if len(steps) < 3 {
+		r.Fail(rule, fname(f)+":validation-steps", c.fpos(f), fmt.Sprintf("smparser.%s.Parse performs %d error-returning validation steps, expected at least unmarshal, mandatory-AVP check and application check", typ, len(steps)))
+	}
+	nAcc := 0
+	flow.Instrs(f, func(in ssa.Instruction) {
+		ret, ok := in.(*ssa.Return)
+		if !ok || len(ret.Results) == 0 {
+			return
+		}
+		errIdx := len(ret.Results) - 1
+		accepting := false
+		for _, v := range flow.SpillSources(ret.Results[errIdx]) {
+			if flow.IsNilConst(v) {
+				accepting = true
+				continue
+			}
+			if definitelyNonNilError(v) || loadedGlobal(v) != nil {
+				continue
+			}
+			// the error of a step, returned on that step's error edge
+			nonNil := false
+			for _, st := range steps {
+				if errorResult(st) == v && errorEdgeBlocks(st)[ret.Block()] {
+					nonNil = true
+				}
+			}
+			if !nonNil {
+				accepting = true
+			}
+		}
+		if !accepting {
+			return
+		}
+		nAcc++
+		for _, st := range steps {
+			g := flow.StaticCallee(st)
+			key := fmt.Sprintf("%s:accept#%d-after-%s", fname(f), nAcc, g.Name())
+			if p := flow.PathAvoiding(f, nil, func(x ssa.Instruction) bool { return x == ssa.Instruction(ret) }, func(x ssa.Instruction) bool { return x == ssa.Instruction(st) }); p != nil {
+				r.Fail(rule, key, c.pos(ret), "the message can be accepted without running the validation step "+fname(g), c.witness(p)...)
+				continue
+			}
+			if p := pathFromErrEdge(f, st, ret); p != nil {
+				r.Fail(rule, key, c.pos(ret), "the message can be accepted although the validation step "+fname(g)+" reported an error (its error edge reaches the accepting return)", c.witness(p)...)
+				continue
+			}
+			if len(errorEdgeBlocks(st)) == 0 {
+				r.Fail(rule, key, c.pos(st), "the error of the validation step "+fname(g)+" is never tested")
+				continue
+			}
+			r.Ok(rule, key, c.pos(ret), "executed on every path to the accepting return; its error edge does not reach it")
+		}
+		if wantSuccessCode {
+			key := fmt.Sprintf("%s:accept#%d-result-code-success", fname(f), nAcc)
+			good := false
+			for _, gd := range flow.Guards(ret) {
+				if rl, ok := condRel(gd.If.Cond, gd.Taken); ok && rl.op == token.EQL {
+					if _, fld, _, okf := flow.FieldOf(flow.Peel(rl.a)); okf && fld == "ResultCode" {
+						if k, isK := flow.ConstInt(rl.b); isK && k == 2001 {
+							good = true
+						}
+					}
+					continue
+				}
+				// a boolean helper of the same package testing the field against 2001
+				if call, isC := flow.Peel(condOperand(gd.If.Cond)).(*ssa.Call); isC {
+					if g := flow.StaticCallee(call); g != nil && g.Blocks != nil && pkgOf(g) != nil && pkgOf(g).Path() == pkgSMParser {
+						flow.Instrs(g, func(x ssa.Instruction) {
+							if bo, isB := x.(*ssa.BinOp); isB && (bo.Op == token.EQL || bo.Op == token.NEQ) {
+								if _, fld, _, okf := flow.FieldOf(flow.Peel(bo.X)); okf && fld == "ResultCode" {
+									if k, isK := flow.ConstInt(bo.Y); isK && k == 2001 {
+										good = true
+									}
+								}
+							}
+						})
+					}
+				}
+			}
+			r.Check(good, rule, key, c.pos(ret), "accepting return guarded by Result-Code == 2001", "a CEA can be accepted without its Result-Code being DIAMETER_SUCCESS (2001): the handshake succeeds on a refusal")
+		}
+	})
+	if nAcc == 0 {
+		r.Fail(rule, fname(f)+":accepting-return", c.fpos(f), "smparser."+typ+".Parse has no return that can carry a nil error: no capabilities message is ever accepted")
+	}
+}
+
+// condOperand strips negations from a branch condition.
+func condOperand(v ssa.Value) ssa.Value {
+	for {
+		u, ok := v.(*ssa.UnOp)
+		if !ok || u.Op != token.NOT {
+			return v
+		}
+		v = u.X
+	}
 }
